@@ -17,14 +17,14 @@ Definition get_o (x : sx) : ostr :=
 Definition put_s (s : string) : sx := SB (bytes_of_string s).
 Definition put_o (o : ostr) : sx := match o with Some s => SL [put_s s] | None => SL [] end.
 
-(* (tag xmlns type id from to participant (mro..) ((child callid)..) has_proto mediatype conv ext skdm enq) *)
+(* (tag xmlns type id from to participant (mro..) ((child callid)..) has_proto mediatype conv ext skdm more enq) *)
 Definition get_feat (x : sx) : feat :=
   let n := sx_nth x in
   mkFeat (get_s (n 0%nat)) (get_o (n 1%nat)) (get_o (n 2%nat)) (get_o (n 3%nat)) (get_o (n 4%nat))
          (get_o (n 5%nat)) (get_o (n 6%nat)) (map get_s (sx_get_l (n 7%nat)))
          (map (fun c => (get_s (sx_nth c 0), get_o (sx_nth c 1))) (sx_get_l (n 8%nat)))
          (sx_get_bool (n 9%nat)) (get_o (n 10%nat)) (sx_get_bool (n 11%nat)) (sx_get_bool (n 12%nat))
-         (sx_get_bool (n 13%nat)) (sx_get_bool (n 14%nat)).
+         (sx_get_bool (n 13%nat)) (sx_get_bool (n 14%nat)) (sx_get_bool (n 15%nat)).
 
 Definition put_stanza (s : stanza) : sx :=
   match s with
@@ -47,7 +47,8 @@ Definition put_action (a : action) : sx :=
   end.
 
 Definition get_variant (x : sx) : variant :=
-  mkVariant (sx_get_bool (sx_nth x 0)) (sx_get_bool (sx_nth x 1)) (sx_get_bool (sx_nth x 2)).
+  mkVariant (sx_get_bool (sx_nth x 0)) (sx_get_bool (sx_nth x 1)) (sx_get_bool (sx_nth x 2))
+            (sx_get_bool (sx_nth x 3)) (sx_get_bool (sx_nth x 4)).
 Definition get_flags (x : sx) : flags :=
   mkFlags (sx_get_bool (sx_nth x 0)) (sx_get_bool (sx_nth x 1)) (sx_get_bool (sx_nth x 2)) (sx_get_bool (sx_nth x 3)).
 
@@ -65,7 +66,7 @@ Fixpoint trace (v : variant) (c : flags) (ax : bool) (st : registry) (ops : list
          :: trace v c ax (st_after_recv c ax st f) rest
   end.
 
-(* arg: ((v1 v2 v3) (groups media privacy profiles) ax (op ...)),  op = (dir feat) *)
+(* arg: ((v1 v2 v3 v4 v5) (groups media privacy profiles) ax (op ...)),  op = (dir feat) *)
 Definition run_trace (arg : sx) : sx :=
   SL (trace (get_variant (sx_nth arg 0)) (get_flags (sx_nth arg 1)) (sx_get_bool (sx_nth arg 2)) []
             (sx_get_l (sx_nth arg 3))).
@@ -78,7 +79,7 @@ Definition put_kind (k : kind) : sx :=
   SL [put_s (k_name k); sx_bool (k_send k); put_mod (k_module k); put_s (k_tag k); put_o (k_xmlns k);
       put_o (k_type k); sx_bool (k_type_free k); SL (map put_s (k_mro k)); SL (map put_s (k_children k));
       sx_bool (k_children_free k); sx_bool (k_has_proto k); put_o (k_mediatype k); sx_bool (k_conv k);
-      sx_bool (k_ext k); sx_bool (k_skdm k); put_o (k_up k);
+      sx_bool (k_ext k); sx_bool (k_skdm k); sx_bool (k_more k); put_o (k_up k);
       SN (match k_answer k with ANone => 0 | ANotifAck => 1 | ADelivery => 2 | ARead => 3
                            | ACallReceipt => 4 | ACallAck => 5 | APong => 6 end)%N].
 
